@@ -331,3 +331,35 @@ PROPS['C14'] = {
                 'that a function map failing to parse leaves the whole map decodable end to end (needs decode_regular whole)',
                 'round trip through JSON', 'rewrite of Hermes maps'],
 }
+
+_C20_UNCOV = {
+    0: None, 4: None,
+    11: ['present module', 'empty table slot', 'corrupt entry', 'startup code present', 'near 2^32', 'recognised', 'wrong magic'],
+    12: ['present module', 'empty table slot', 'corrupt entry', 'startup code present', 'near 2^32'],
+    20: ['present module', 'empty table slot', 'corrupt entry', 'startup code present'],
+}
+
+PROPS['C20'] = {
+    'title': 'Indexed RAM bundles are parsed exactly and malformed ones are refused',
+    'functions': ['ram_bundle::is_ram_bundle_slice', 'ram_bundle::RamBundle::parse_indexed_from_slice', 'IndexedRamBundle::parse',
+                  'RamBundle::module_count', 'RamBundle::startup_code', 'RamBundle::get_module', 'RamBundle::iter_modules',
+                  'RamBundleModuleIter::next', 'scroll::Pread (derived readers, real code)'],
+    'harnesses': [
+        H('c20_any_n%d' % n, 'ram_bundle', 'quick' if n in (0, 11, 12, 28, 36) else 'thorough', 1500, 10,
+          'EVERY byte string of exactly %d bytes (well-formed bundles and all corruptions alike) x any module id (usize): recognition, '
+          'parse, module_count, get_module and startup_code equal the format specification; returned slices lie in the buffer' % n,
+          nocover=(n in (0, 4)), allow_uncovered=_C20_UNCOV.get(n))
+        for n in (0, 4, 11, 12, 20, 28, 36, 44)
+    ] + [
+        H('c20_iter_m2', 'ram_bundle', 'quick', 1800, 12, '36-byte buffer, valid magic, module count 2, all other bytes arbitrary: iter_modules vs specification'),
+        H('c20_iter_m3', 'ram_bundle', 'thorough', 2400, 12, '44-byte buffer, valid magic, module count 3, all other bytes arbitrary: iter_modules vs specification'),
+    ],
+    'assumptions': ['the specification oracle in h_ram_bundle.rs (u64 arithmetic over the buffer) is the reading of the indexed RAM '
+                    'bundle format: LE header (magic, count, startup size), 8-byte table entries (offset, length) relative to the end '
+                    'of the table, (0,0) = empty slot, length includes a trailing NUL',
+                    'a zero-length startup code / zero-length data exactly at the end of the buffer is refused by scroll (offset >= len); the '
+                    'property only speaks of non-empty startup code'],
+    'trusted': [],
+    'outside': ['buffers longer than 44 bytes (3 table entries + 8 body bytes)', 'file-based (unbundle) bundles', 'split_ram_bundle',
+                'parse_indexed_from_vec / from_path (same parser behind an owned Cow)'],
+}
